@@ -819,8 +819,8 @@ impl<T: Storage> RawNode<T> {
 pub mod verif {
     use super::{RawNode, StateRole, Storage};
 
-    /// `(number, last_entry, snapshot)` of an outstanding Ready.
-    pub type Record = (u64, Option<(u64, u64)>, Option<(u64, u64)>);
+    /// `(number, last_entry, snapshot, hs_changed)` of an outstanding Ready.
+    pub type Record = (u64, Option<(u64, u64)>, Option<(u64, u64)>, bool);
 
     /// Private fields of a `RawNode`.
     pub struct Private {
@@ -849,7 +849,7 @@ pub mod verif {
                 records: self
                     .records
                     .iter()
-                    .map(|r| (r.number, r.last_entry, r.snapshot))
+                    .map(|r| (r.number, r.last_entry, r.snapshot, r.hs_changed))
                     .collect(),
                 commit_since_index: self.commit_since_index,
             }
